@@ -2138,6 +2138,10 @@ class NamespaceSet(MutableSet[_NSO], Generic[_NSO]):
                 if isinstance(other_object, Referable):
                     backend, case_sensitive = self._backend["id_short"]
                     referable = backend[other_object.id_short if case_sensitive else other_object.id_short.upper()]
+                    if type(referable) is not type(other_object):
+                        # same id_short, but another class: it can't be updated in place, so replace the object
+                        objects_to_remove.append(referable)
+                        raise KeyError(other_object.id_short)
                     referable.update_from(other_object, update_source=True)  # type: ignore
                 elif isinstance(other_object, Qualifier):
                     backend, case_sensitive = self._backend["type"]
